@@ -32,7 +32,7 @@ TRestored ==
   /\ IsEvent("restored")
   /\ Ev.err = ""
   /\ Len(Ev.kvs) = Cardinality(DOMAIN content)                 \* no pair added (e.g. a phantom empty key) ...
-  /\ MapOf(EmptyMap, Ev.kvs) = content                         \* ... lost or altered; nothing of the old content survives
+  /\ {<<Ev.kvs[i].k, Ev.kvs[i].v>> : i \in 1..Len(Ev.kvs)} = {<<k, content[k]>> : k \in DOMAIN content}   \* ... lost or altered; nothing old survives
   /\ Ev.lidx = declared                                        \* the recorded leader index is the declared one
   /\ UNCHANGED <<content, declared, writes>>
 
